@@ -8,6 +8,8 @@ package stack
 
 import (
 	"fmt"
+	"html/template"
+	"io"
 	"runtime/debug"
 	"sort"
 	"strings"
@@ -30,7 +32,7 @@ func (a sigAttr) String() string {
 	return fmt.Sprintf("st%d cr%d lk%d sl%d len%d fn%d fi%d li%d el%d ar%d", a.state, a.creator, a.locked, a.sleep, a.length, a.fn, a.file, a.line, a.elided, a.args)
 }
 
-var sigDomains = []int{2, 3, 2, 3, 2, 2, 2, 2, 2, len(sigArgShapes)}
+var sigDomains = []int{2, 5, 2, 3, 2, 2, 4, 2, 2, len(sigArgShapes)}
 
 func (a *sigAttr) field(i int) *int {
 	return []*int{&a.state, &a.creator, &a.locked, &a.sleep, &a.length, &a.fn, &a.file, &a.line, &a.elided, &a.args}[i]
@@ -127,13 +129,26 @@ func (a sigAttr) build(named bool) *Goroutine {
 		g.CreatedBy.Calls = []Call{mkCall("main.mk", "/gp/src/x/a.go", 10, Args{})}
 	case 2:
 		g.CreatedBy.Calls = []Call{mkCall("main.mk2", "/gp/src/x/a.go", 11, Args{})}
+	case 3, 4:
+		// a creation *stack* as race reports have them: same first frame, different caller
+		g.CreatedBy.Calls = []Call{mkCall("main.mk", "/gp/src/x/a.go", 10, Args{}),
+			mkCall([]string{"main.startA", "main.startB"}[a.creator-3], "/gp/src/x/c.go", 20+a.creator, Args{})}
 	}
 	g.Locked = a.locked == 1
 	g.SleepMin = []int{0, 1, 5}[a.sleep]
 	g.SleepMax = g.SleepMin
 	fn := []string{"main.f", "main.g"}[a.fn]
-	file := []string{"/gp/src/x/a.go", "/other/x/a.go"}[a.file]
+	file := []string{"/gp/src/x/a.go", "/other/x/a.go", "/r1/src/x/a.go", "/r2/src/x/a.go"}[a.file]
 	g.Stack.Calls = []Call{mkCall(fn, file, 1+a.line, sigArgShapes[a.args]())}
+	if a.file >= 2 {
+		// a frame that path guessing resolved: the same relative path under two
+		// different roots (files 2 and 3 differ in the remote and local path only)
+		c := &g.Stack.Calls[0]
+		c.RelSrcPath = "x/a.go"
+		c.LocalSrcPath = []string{"/l1", "/l2"}[a.file-2] + "/src/x/a.go"
+		c.ImportPath = "x"
+		c.Location = GOPATH
+	}
 	if a.length == 1 {
 		g.Stack.Calls = append(g.Stack.Calls, mkCall("main.h", "/gp/src/x/b.go", 7, Args{}))
 	}
@@ -205,6 +220,11 @@ func aggUniverse(r *h.Run) []sigAttr {
 		}
 		return r.Thorough() && j == argsDim && i == 0
 	})
+	// resolved frames combined with the argument shapes that make members of one bucket
+	// differ (pointers at top level and inside an aggregate): merges of resolved frames
+	for _, args := range []int{3, 4, 8, 10} {
+		u = append(u, sigAttr{file: 2, args: args})
+	}
 	if r.Thorough() {
 		return u
 	}
@@ -844,6 +864,22 @@ func oracleC04(c *aggCase, s *Snapshot, level Similarity, a *Aggregated) *h.Viol
 	}
 	if a.Snapshot != s {
 		return mk("snapshot-backref", "Aggregated.Snapshot is not the snapshot it was made from")
+	}
+	// the back-reference and the buckets also survive the read-only uses of the result
+	// (rendering it, twice): done for the small cases in their first arrival order
+	if len(c.idx) <= 2 && c.first == 0 && !c.named && (len(c.perm) < 2 || c.perm[0] == 0) {
+		before := describeBuckets(a)
+		for k := 0; k < 2; k++ {
+			if err := a.ToHTML(io.Discard, template.HTML("")); err != nil {
+				return mk("html-error", "Aggregated.ToHTML: "+err.Error())
+			}
+			if a.Snapshot != s {
+				return mk("snapshot-backref-after-render", "after Aggregated.ToHTML, Aggregated.Snapshot is no longer the snapshot it was made from")
+			}
+		}
+		if describeBuckets(a) != before {
+			return mk("buckets-changed-by-render", "Aggregated.ToHTML changed the buckets")
+		}
 	}
 	seen := map[int]int{}
 	total := 0
